@@ -88,7 +88,9 @@ def run_case(job: dict) -> dict:
     try:
         try:
             with contextlib.redirect_stdout(io.StringIO()):
-                pl = build.make_pipeline(pdesc)
+                # the order in which the functions are LISTED is immaterial: some pipelines are built consumers first
+                listed = dict(pdesc, funcs=list(reversed(pdesc["funcs"]))) if kinds.get("__order__") == "rev" else pdesc
+                pl = build.make_pipeline(listed)
         except Exception as ex:  # noqa: BLE001
             evs = [pmap.ev(e="reject", F=[f["name"] for f in tdesc["funcs"]], cls=type(ex).__name__,
                            msg="construct: " + str(ex)[:300])]
@@ -153,7 +155,8 @@ def run(ctx: Ctx) -> None:
         for s in st:
             for kinds in kinds_list:
                 jobs.append({"tdesc": c["desc"], "inputs": c["inputs"], "storage": s,
-                             "kinds": dict(kinds, __via__=("decl", "map", "override")[(k // 3) % 3])})
+                             "kinds": dict(kinds, __via__=("decl", "map", "override")[(k // 3) % 3],
+                                           __order__="rev" if k % 2 else "listed")})
     # batches bound the memory of the thorough tier (every trace record carries its events)
     traces: list[dict] = []
     batch = 20000
@@ -179,7 +182,8 @@ def run(ctx: Ctx) -> None:
             if len(fd["outputs"]) > 1 and rng.random() < 0.4:
                 fd["picker"] = True
         rjobs.append({"tdesc": desc_to_tla(case["desc"]), "pdesc": case["desc"], "inputs": case["inputs"],
-                      "kinds": case["kinds"], "storage": storages[k % 3] if k % 7 else "shared_memory_dict"})
+                      "kinds": dict(case["kinds"], __order__="rev" if k % 2 else "listed"),
+                      "storage": storages[k % 3] if k % 7 else "shared_memory_dict"})
     rtraces = run_jobs(rjobs)
     for t in rtraces:
         ctx.case({"d": t["desc"], "i": t["inputs"], "s": t["storage"]}, nontrivial(t))
